@@ -211,7 +211,16 @@ def task_pairs(params, rec):
             sr = "opp" if (x < 0) != (y < 0) and x != 0 and y != 0 else "same"
             rec.cls(x.dtype.name, sr, mag_class(x), mag_class(y), "near" if d < 10000 else "far")
     # flush map is monotone in |x| over subnormals and sign-symmetric (sampled over the subnormal range)
-    subs = exact.from_ordinal_arr(dt, numpy.unique(rng.integers(1, ord_min_normal, size=300)))
+    half = ord_min_normal // 2
+    edge = [1, 2, 3, half - 2, half - 1, half, half + 1, half + 2, ord_min_normal - 3, ord_min_normal - 2, ord_min_normal - 1]  # ends and the tie region, always
+    subs = exact.from_ordinal_arr(dt, numpy.unique(numpy.concatenate([rng.integers(1, ord_min_normal, size=300), numpy.array([e_ for e_ in edge if 1 <= e_ < ord_min_normal])])))
+    # the collapse is to the nearer of {0, smallest normal}: the smallest subnormal goes to 0, the largest to the smallest normal
+    for end, want in ((1, 0), (ord_min_normal - 1, 1)):
+        v_ = exact.from_ordinal(dt, end)
+        for sg in (1, -1):
+            rec.count("law:flush")
+            if flush_phi(utils, dt(sg * v_)) != want:
+                rec.violation("flush-map-endpoint", dict(dtype=dt.__name__, x=dt(sg * v_), phi=flush_phi(utils, dt(sg * v_)), expected=want))
     prev = 0
     for s in subs:
         p = flush_phi(utils, dt(s))
